@@ -1294,3 +1294,66 @@ func isPureFieldCall(ins ssa.Instruction, fields map[string]bool) bool {
 	st := structOf(fa.X.Type())
 	return st != nil && fields[st.Field(fa.Field).Name()]
 }
+
+// immutableGlobal: a package-level variable that no function of the loaded program assigns or takes the
+// address of, except its own package initialiser. Such a variable keeps its value across calls.
+func (p *Program) immutableGlobal(g *ssa.Global) bool {
+	if p.mutableGlobals == nil {
+		p.mutableGlobals = map[*ssa.Global]bool{}
+		var scan func(fn *ssa.Function)
+		seen := map[*ssa.Function]bool{}
+		scan = func(fn *ssa.Function) {
+			if fn == nil || seen[fn] {
+				return
+			}
+			seen[fn] = true
+			isInit := fn.Name() == "init" || strings.HasPrefix(fn.Name(), "init#")
+			for _, b := range fn.Blocks {
+				for _, ins := range b.Instrs {
+					for _, op := range ins.Operands(nil) {
+						if op == nil || *op == nil {
+							continue
+						}
+						gg, ok := (*op).(*ssa.Global)
+						if !ok {
+							continue
+						}
+						switch x := ins.(type) {
+						case *ssa.UnOp:
+							if x.Op == token.MUL && x.X == gg {
+								continue // a read
+							}
+						case *ssa.Store:
+							if x.Addr == gg && x.Val != gg && isInit && fn.Pkg != nil && fn.Pkg == gg.Pkg {
+								continue // initialisation
+							}
+						}
+						p.mutableGlobals[gg] = true
+					}
+				}
+			}
+			for _, af := range fn.AnonFuncs {
+				scan(af)
+			}
+		}
+		for sp := range p.built {
+			for _, m := range sp.Members {
+				switch x := m.(type) {
+				case *ssa.Function:
+					scan(x)
+				case *ssa.Type:
+					for _, t := range []types.Type{x.Type(), types.NewPointer(x.Type())} {
+						ms := p.prog.MethodSets.MethodSet(t)
+						for i := 0; i < ms.Len(); i++ {
+							scan(p.prog.MethodValue(ms.At(i)))
+						}
+					}
+				}
+			}
+		}
+	}
+	if g.Pkg == nil || !p.built[g.Pkg] {
+		return false // a package whose bodies were not built: unknown writers
+	}
+	return !p.mutableGlobals[g]
+}
